@@ -7,7 +7,9 @@
    c09.write     instance                                  -> result text   (Err 5 = KeyError in write)
    c09.parse     (autocorrect header_only data_type file_name splitter text) -> result instance
                  splitter: 0 = file.readlines() (parse_file), 1 = str.splitlines() (parse_str)
-   c09.roundtrip instance -> (result instance', text written from the instance, result text written from instance') *)
+   c09.roundtrip instance -> (result instance', text written from the instance, result text written from instance')
+   c09.build     ((0 node) | (1 n1 n2 token) ...)          -> (node_mapping weights) after these add_node / add_edge
+                                                              calls on an empty WeightedDiGraph *)
 From Coq Require Import List ZArith NArith String.
 From PrefVerif Require Import Lib.Val Lib.Dec Lib.PyStr Model.Meta Model.WmdIO.
 Import ListNotations.
@@ -55,5 +57,14 @@ Definition op_roundtrip (v : val) : val :=
   let r := wmd_parse_tok false false (meta0 (lit "wmd")) (readlines t) in
   VL [eresult e_inst r; eresult e_text (write_r i); eresult e_text (rbind r write_r)].
 
+Definition build_step (g : nmap * wtab text) (v : val) : nmap * wtab text :=
+  match dnat (dnth 0 v) with
+  | O => (add_node (dN (dnth 1 v)) (fst g), snd g)
+  | _ => add_edge (dN (dnth 1 v)) (dN (dnth 2 v)) (d_text (dnth 3 v)) g
+  end.
+Definition op_build (v : val) : val :=
+  let g := fold_left build_step (dlist (fun x => x) v) ([], []) in
+  VL [elist (epair eN (elist eN)) (fst g); elist (epair (epair eN eN) e_text) (snd g)].
+
 Definition ops : optable :=
-  [ ("c09.write", op_write); ("c09.parse", op_parse); ("c09.roundtrip", op_roundtrip) ].
+  [ ("c09.write", op_write); ("c09.parse", op_parse); ("c09.roundtrip", op_roundtrip); ("c09.build", op_build) ].
